@@ -74,8 +74,11 @@ TRet == /\ IsE("Ret")
 TSilent == /\ InnerStep /\ call'.active
            /\ MStep /\ Tokens /\ UNCHANGED <<l, expect>>
 
+\* fail: what the application's allocator did during the call; ntok: format elements that were complete in the
+\* output at that moment (-1: not observed)
 TUpdate == /\ IsE("Update")
-           /\ Update(Ev(l).target) /\ ev'.ret = Ev(l).ret
+           /\ Update(Ev(l).target, Ev(l).fail) /\ ev'.ret = Ev(l).ret
+           /\ (Ev(l).ntok >= 0 => ti - 1 = Ev(l).ntok)
            /\ MStep /\ Tokens /\ l' = l + 1 /\ UNCHANGED expect
 
 Stay == UNCHANGED <<allvars, mvars, ti, expect>> /\ l' = l + 1
